@@ -76,6 +76,12 @@ def run(ctx):
         bits = "".join(format(i_, "011b") for i_ in grp) + format(rng.randrange(128), "07b")
         add(12, int(bits, 2).to_bytes(16, "big"))
     ctx.exhaustive["every word index 0..2047 occurs in a generated phrase"] = True
+    # enormous requested lengths (native integer width boundaries, lengths whose entropy size computation would wrap to a
+    # supported one): an ordinary refusal, no entropy requested, nothing printed
+    for L in (41, 48, 96, 255, 256, 257, 65535, 65536, 65548, (1 << 32) - 1, 1 << 32, (1 << 32) + 12, (1 << 32) + 24, 52405522936674863, (1 << 59) + 12,
+              (1 << 61) + 24, (1 << 62) + 12, (1 << 63) - 1, 1 << 63, (1 << 63) + 12, (1 << 64) - 4, (1 << 64) - 1, 1 << 64, (1 << 64) + 12, 10 ** 30):
+        add(L, b"\x00" * 16)
+        add(L, rbytes(rng, 32), args=["new", "--length=%d" % L])
     add(12, rbytes(rng, 16), args=["new"])  # default length
     add(12, rbytes(rng, 16), args=["new", "--length", "12", "--language", "english"])
     add(12, rbytes(rng, 16), args=["new", "-n", "12", "-l", "ENGLISH"])
